@@ -67,10 +67,12 @@ type c31Clock struct {
 	tickers       []*c31Ticker
 }
 
+var c31Epoch = time.Date(2023, 1, 23, 0, 0, 0, 0, time.UTC)
+
 func c31NewClock() *c31Clock {
 	return &c31Clock{
 		Mock: bbclock.NewMock(),
-		now:  time.Date(2023, 1, 23, 0, 0, 0, 0, time.UTC),
+		now:  c31Epoch,
 	}
 }
 
